@@ -18,6 +18,10 @@ violation leaves an association that reports itself connected but can never make
             return; entering ESTABLISHED flushes the data-channel queue; a reset response re-kicks the reconfig queue
   C02-CWND  the congestion window never drops below one MTU (assignments are constants >= MTU, ssthresh — itself max(...,
             4 MTU) — or non-negative increments)
+  C02-RX-TIMER / C02-RX-SIGN  (shared with C05) the association's receive loop cannot be killed by a repeated chunk tripping a
+            timer assert or by a negative receive window reaching an unsigned pack
+  C02-SERIAL  serial-number discipline (C17 rule set) in rtcsctptransport.py: TSNs and stream sequence numbers only through
+            wrap-safe helpers (a counter that does not wrap leaves messages queued forever)
 Does not decide: delivery within bounded time, absence of stalls (abandoned fragments of partially reliable messages are
 outside these rules, see C06).
 """
@@ -460,3 +464,12 @@ def run(rep: Report, prog: Program, tier: str) -> None:
                     rep.fail(mk_finding(prog, PROP, "C02-CWND", fi, n, "_cwnd is decreased in place; only max()-bounded assignments may shrink the window", construct="cwnd in-place decrease"))
                 else:
                     rep.ok("C02-CWND", f"{fi.qualname}: {unparse(n)}", sample="non-negative increment")
+
+    # ================================================================ C02-RX / C02-SERIAL (shared rules)
+    # a receive loop that dies or a stream that waits for a sequence number that never comes are stalls too
+    from .common import serial_subrule, sign_rule, timer_rule
+    timer_rule(rep, prog, PROP, "C02-RX-TIMER")
+    from engine.callgraph import CallGraph
+    reach = CallGraph(prog).reachable([meth("_handle_data")])
+    sign_rule(rep, prog, PROP, "C02-RX-SIGN", sorted(q for q in reach if q.startswith("rtcsctptransport.")))
+    serial_subrule(rep, prog, tier, PROP, "C02-SERIAL", ["rtcsctptransport"], 30, "serial-number discipline (C17 rule set) in rtcsctptransport.py")
